@@ -24,6 +24,10 @@ type position struct {
 	tpl  string
 	// obs derives the truthiness the position attributed to x from the parsed output.
 	obs func(l []*hx.N) (bool, error)
+	// data places the value where the position's operand path finds it (nil = truthData);
+	// skip leaves the position out for values it cannot hold.
+	data func(v vals.V) map[string]any
+	skip func(v vals.V) bool
 }
 
 func findM(l []*hx.N, id string) []*hx.N {
@@ -140,19 +144,141 @@ const (
 	pShowChain = "v-show on v-if member"
 )
 
-var positions = []position{
-	{pIf, `<p data-m="y" v-if="x">Y</p>`, present("y")},
-	{pElseIf, `<p data-m="n" v-if="ff">N</p><p data-m="y" v-else-if="x">Y</p><p data-m="e" v-else>E</p>`, elseIf},
-	{pShow, `<p data-m="y" v-show="x">Y</p>`, shown("y")},
-	{pAttr, `<p data-m="y" :data-x="x">Y</p>`, hasAttr("y", "data-x")},
-	{pDisabled, `<button data-m="y" v-bind:disabled="x">Y</button>`, hasAttr("y", "disabled")},
-	{pClass, `<p data-m="y" :class="{k: x}">Y</p>`, hasClass("y", "k", nil, nil)},
-	{pClassMix, `<p data-m="y" class="s" :class="{'a': tt, 'k': x, 'b': ff}">Y</p>`, hasClass("y", "k", []string{"s", "a"}, []string{"b"})},
-	{pNotIf, `<p data-m="y" v-if="!x">Y</p>`, not(present("y"))},
-	{pNotShow, `<p data-m="y" v-show="!x">Y</p>`, not(shown("y"))},
-	{pIfPath, `<div v-for="it in rows"><p data-m="y" v-if="it.x">Y</p></div>`, present("y")},
-	{pElseIfNeg, `<p data-m="n" v-if="ff">N</p><p data-m="y" v-else-if="!x">Y</p><p data-m="e" v-else>E</p>`, not(elseIf)},
-	{pShowChain, `<p data-m="y" v-if="tt" v-show="x">Y</p>`, shown("y")},
+var positions = append([]position{
+	{name: pIf, tpl: `<p data-m="y" v-if="x">Y</p>`, obs: present("y")},
+	{name: pElseIf, tpl: `<p data-m="n" v-if="ff">N</p><p data-m="y" v-else-if="x">Y</p><p data-m="e" v-else>E</p>`, obs: elseIf},
+	{name: pShow, tpl: `<p data-m="y" v-show="x">Y</p>`, obs: shown("y")},
+	{name: pAttr, tpl: `<p data-m="y" :data-x="x">Y</p>`, obs: hasAttr("y", "data-x")},
+	{name: pDisabled, tpl: `<button data-m="y" v-bind:disabled="x">Y</button>`, obs: hasAttr("y", "disabled")},
+	{name: pClass, tpl: `<p data-m="y" :class="{k: x}">Y</p>`, obs: hasClass("y", "k", nil, nil)},
+	{name: pClassMix, tpl: `<p data-m="y" class="s" :class="{'a': tt, 'k': x, 'b': ff}">Y</p>`, obs: hasClass("y", "k", []string{"s", "a"}, []string{"b"})},
+	{name: pNotIf, tpl: `<p data-m="y" v-if="!x">Y</p>`, obs: not(present("y"))},
+	{name: pNotShow, tpl: `<p data-m="y" v-show="!x">Y</p>`, obs: not(shown("y"))},
+	{name: pIfPath, tpl: `<div v-for="it in rows"><p data-m="y" v-if="it.x">Y</p></div>`, obs: present("y")},
+	{name: pElseIfNeg, tpl: `<p data-m="n" v-if="ff">N</p><p data-m="y" v-else-if="!x">Y</p><p data-m="e" v-else>E</p>`, obs: not(elseIf)},
+	{name: pShowChain, tpl: `<p data-m="y" v-if="tt" v-show="x">Y</p>`, obs: shown("y")},
+}, formPositions()...)
+
+// basePositionCount is the number of positions written on the plain name x.
+const basePositionCount = 12
+
+// holder is a struct below the root: Val is read by its JSON tag (h.val) and by its Go name
+// (h.Val), Plain has no tag.
+type holder struct {
+	Val   any `json:"val"`
+	Plain any
+}
+
+// form is one way of writing the operand of a condition: a path and the data that puts the
+// value at the end of that path. Paths resolve through maps, slices, pointers and structs, by
+// field name or JSON tag, dotted or bracketed (docs/expressions.md, docs/api.md); hyphenated
+// keys work directly in templates (docs/components.md).
+type form struct {
+	name string
+	path string
+	wrap [2]string // optional wrapper around the probing element (a v-for binding the path's head)
+	data func(val any, missing bool) map[string]any
+	skip func(v vals.V) bool
+}
+
+func mapWith(key string, val any, missing bool) map[string]any {
+	m := map[string]any{}
+	if !missing {
+		m[key] = val
+	}
+	return m
+}
+
+func listWith(val any, missing bool) []any {
+	if missing {
+		return []any{}
+	}
+	return []any{val}
+}
+
+var forms = []form{
+	{name: "map key m.x", path: "m.x", data: func(v any, miss bool) map[string]any {
+		return map[string]any{"m": mapWith("x", v, miss)}
+	}},
+	{name: "nested map key m.in.x", path: "m.in.x", data: func(v any, miss bool) map[string]any {
+		return map[string]any{"m": map[string]any{"in": mapWith("x", v, miss)}}
+	}},
+	{name: "hyphenated name x-val", path: "x-val", data: func(v any, miss bool) map[string]any {
+		return mapWith("x-val", v, miss)
+	}},
+	{name: "dotted index l.0", path: "l.0", data: func(v any, miss bool) map[string]any {
+		return map[string]any{"l": listWith(v, miss)}
+	}},
+	{name: "bracket index l[0]", path: "l[0]", data: func(v any, miss bool) map[string]any {
+		return map[string]any{"l": listWith(v, miss)}
+	}},
+	{name: "map in slice ms[1].x", path: "ms[1].x", data: func(v any, miss bool) map[string]any {
+		return map[string]any{"ms": []any{map[string]any{}, mapWith("x", v, miss)}}
+	}},
+	{name: "map in slice ms.1.x", path: "ms.1.x", data: func(v any, miss bool) map[string]any {
+		return map[string]any{"ms": []map[string]any{{}, mapWith("x", v, miss)}}
+	}},
+	{name: "struct field by JSON tag h.val", path: "h.val", data: func(v any, _ bool) map[string]any {
+		return map[string]any{"h": holder{Val: v}}
+	}},
+	{name: "struct field by Go name h.Val", path: "h.Val", data: func(v any, _ bool) map[string]any {
+		return map[string]any{"h": holder{Val: v}}
+	}},
+	{name: "untagged struct field h.Plain", path: "h.Plain", data: func(v any, _ bool) map[string]any {
+		return map[string]any{"h": holder{Plain: v}}
+	}},
+	{name: "pointer to struct hp.val", path: "hp.val", data: func(v any, _ bool) map[string]any {
+		return map[string]any{"hp": &holder{Val: v}}
+	}},
+	{name: "struct in looped slice p.val", path: "p.val", wrap: [2]string{`<div v-for="p in hs">`, `</div>`},
+		data: func(v any, _ bool) map[string]any {
+			return map[string]any{"hs": []holder{{Val: v}}}
+		}},
+	{name: "struct in slice hs[0].val", path: "hs[0].val", data: func(v any, _ bool) map[string]any {
+		return map[string]any{"hs": []*holder{{Val: v}}}
+	}},
+	// a loop variable that shadows a root variable of the opposite truthiness (nil items included)
+	{name: "loop variable x shadowing root x", path: "x", wrap: [2]string{`<div v-for="x in xs">`, `</div>`},
+		skip: func(v vals.V) bool { return v.K == "missing" },
+		data: func(v any, _ bool) map[string]any { return map[string]any{"xs": []any{v}} }},
+	{name: "indexed loop variable x shadowing root x", path: "x", wrap: [2]string{`<div v-for="(i, x) in xs">`, `</div>`},
+		skip: func(v vals.V) bool { return v.K == "missing" },
+		data: func(v any, _ bool) map[string]any { return map[string]any{"xs": []any{v}} }},
+}
+
+// formPositions writes every form into the truthiness positions.
+func formPositions() []position {
+	var out []position
+	for _, f := range forms {
+		f := f
+		data := func(v vals.V) map[string]any {
+			var val any
+			if v.K != "missing" {
+				val = v.Go()
+			}
+			d := f.data(val, v.K == "missing")
+			d["tt"], d["ff"] = true, false
+			if f.path == "x" {
+				// the shadowed root variable has the opposite truthiness (true where the
+				// documentation does not settle the value)
+				t, spec := v.Truthy()
+				d["x"] = !spec || !t
+			}
+			return d
+		}
+		w := func(s string) string { return f.wrap[0] + s + f.wrap[1] }
+		p := f.path
+		out = append(out,
+			position{name: f.name + " / v-if", tpl: w(`<p data-m="y" v-if="` + p + `">Y</p>`), obs: present("y"), data: data, skip: f.skip},
+			position{name: f.name + " / v-else-if", tpl: w(`<p data-m="n" v-if="ff">N</p><p data-m="y" v-else-if="` + p + `">Y</p><p data-m="e" v-else>E</p>`), obs: elseIf, data: data, skip: f.skip},
+			position{name: f.name + " / v-show", tpl: w(`<p data-m="y" v-show="` + p + `">Y</p>`), obs: shown("y"), data: data, skip: f.skip},
+			position{name: f.name + " / :attr", tpl: w(`<p data-m="y" :data-x="` + p + `">Y</p>`), obs: hasAttr("y", "data-x"), data: data, skip: f.skip},
+			position{name: f.name + " / :class", tpl: w(`<p data-m="y" :class="{k: ` + p + `}">Y</p>`), obs: hasClass("y", "k", nil, nil), data: data, skip: f.skip},
+			position{name: f.name + " / v-if !", tpl: w(`<p data-m="y" v-if="!` + p + `">Y</p>`), obs: not(present("y")), data: data, skip: f.skip},
+			position{name: f.name + " / v-show !", tpl: w(`<p data-m="y" v-show="!` + p + `">Y</p>`), obs: not(shown("y")), data: data, skip: f.skip},
+		)
+	}
+	return out
 }
 
 func positionNames() []string {
@@ -226,7 +352,14 @@ func checkTruth(c TruthCase) error {
 		if len(want) > 0 && !want[p.name] {
 			continue
 		}
-		out, err := render(p.tpl, truthData(c.Val), "")
+		if p.skip != nil && p.skip(c.Val) {
+			continue
+		}
+		data := truthData(c.Val)
+		if p.data != nil {
+			data = p.data(c.Val)
+		}
+		out, err := render(p.tpl, data, "")
 		if err != nil {
 			return fmt.Errorf("x=%s in %s: render failed: %v (template %s)", c.Val, p.name, err, p.tpl)
 		}
